@@ -1,7 +1,15 @@
-/* C11 run harness: the REAL mframe_schedule() (mframe_sched.c) for given (task mask, current fn); tdma_schedule_set()
- * is replaced by a recorder (the real one only copies the set into TDMA buckets - C08's subject).
- * stdin: "<tasks mask> <fn>" per line; stdout: "<n> {<frame_offset> <kind> <p3>}*n" per line.
- * Before every call the scheduler is reset (safe_fn = -1 "force safe"), so tasks := tasks_tgt inside mframe_schedule(). */
+/* C11 run harness: the REAL mframe_schedule() / mframe_enable() / mframe_disable() / mframe_set() / mframe_reset() (mframe_sched.c);
+ * tdma_schedule_set() is replaced by a recorder that returns what the real one returns for the set when no bucket overflows (the
+ * number of frames of the set; the real one also copies the set into TDMA buckets - C08's subject).
+ * no argument:  stdin "<tasks mask> <fn>" per line; stdout "<n> {<frame_offset> <kind> <p3>}*n" per line.
+ *               Before every call the scheduler is reset (safe_fn = -1 "force safe"), so tasks := tasks_tgt inside mframe_schedule().
+ * hist:         one history per line: "n (code a b)*n", starting from memset + mframe_reset():
+ *                 1 t 0  mframe_enable(t)      2 t 0  mframe_disable(t)     3 m 0  mframe_set(m)     4 0 0  mframe_reset()
+ *                 5 fn 0 current_time.fn = fn; mframe_schedule()  -> prints "tasks tasks_tgt safe_fn ncalls (off kind p3)*"
+ *                 6 fn k the same for the k consecutive frames fn, fn+1, .. (mod GSM_MAX_FN), silently -> prints "tasks tasks_tgt safe_fn total_calls"
+ *                 7 a b  tasks = a, tasks_tgt = b (state poke)               8 a 0  safe_fn = a (state poke)
+ *               task numbers 0..30 only and only tasks with a table may be enabled / set (a NULL table would be dereferenced);
+ *               a malformed line answers "-999". */
 #include "c11_fw_common.h"
 
 static int ncalls;
@@ -15,14 +23,100 @@ int tdma_schedule_set(uint8_t frame_offset, const struct tdma_sched_item *item_s
 		calls[ncalls].p3 = p3;
 	}
 	ncalls++;
-	return 4; /* the real one returns the number of TDMA frames the set spans; only used for safe_fn */
+	return set_frames(item_set);
 }
 
-int main(void)
+#define MAXTOK 16384
+static long long tok[MAXTOK];
+
+static int valid_mask(void)
+{
+	int t; uint32_t m = 0;
+	for (t = 0; t < NTASKS && t < 31; t++)
+		if (sched_set_for_task[t] != NULL) m |= (uint32_t)1 << t;
+	return (int)m;
+}
+
+static void print_calls(void)
+{
+	int i;
+	printf(" %d", ncalls);
+	for (i = 0; i < ncalls && i < 1024; i++)
+		printf(" %d %d %d", calls[i].off, calls[i].kind, calls[i].p3);
+}
+
+static void run_hist(char *line)
+{
+	int n = 0, i; char *p = line, *e;
+	uint32_t vm = (uint32_t)valid_mask();
+	for (;;) {
+		while (*p == ' ' || *p == '\t' || *p == '\n' || *p == '\r') p++;
+		if (!*p) break;
+		if (n >= MAXTOK) goto bad;
+		tok[n++] = strtoll(p, &e, 10);
+		if (e == p) goto bad;
+		p = e;
+	}
+	if (n < 1 || tok[0] < 0 || 1 + 3 * tok[0] != n) goto bad;
+	for (i = 0; i < tok[0]; i++) {
+		long long c = tok[1 + 3 * i], a = tok[2 + 3 * i], b = tok[3 + 3 * i];
+		if (a < 0 || a > 0xffffffffLL || b < 0 || b > 0xffffffffLL) goto bad;
+		switch (c) {
+		case 1: if (a > 30 || !((vm >> a) & 1) || b) goto bad; break;
+		case 2: if (a > 30 || b) goto bad; break;
+		case 3: if ((a & ~(long long)vm) || b) goto bad; break;
+		case 4: if (a || b) goto bad; break;
+		case 5: if (b) goto bad; break;
+		case 6: if (a >= GSM_MAX_FN || b > 4000000) goto bad; break;
+		case 7: if ((a & ~(long long)vm) || (b & ~(long long)vm)) goto bad; break;
+		case 8: if (b) goto bad; break;
+		default: goto bad;
+		}
+	}
+	memset(&l1s, 0, sizeof(l1s));
+	mframe_reset();
+	for (i = 0; i < tok[0]; i++) {
+		long long c = tok[1 + 3 * i], a = tok[2 + 3 * i], b = tok[3 + 3 * i], k, total;
+		switch (c) {
+		case 1: mframe_enable((enum mframe_task)a); break;
+		case 2: mframe_disable((enum mframe_task)a); break;
+		case 3: mframe_set((uint32_t)a); break;
+		case 4: mframe_reset(); break;
+		case 5:
+			l1s.current_time.fn = (uint32_t)a; ncalls = 0;
+			mframe_schedule();
+			printf(" %u %u %u", (unsigned)l1s.mframe_sched.tasks, (unsigned)l1s.mframe_sched.tasks_tgt, (unsigned)l1s.mframe_sched.safe_fn);
+			print_calls();
+			break;
+		case 6:
+			for (k = 0, total = 0; k < b; k++) {
+				l1s.current_time.fn = (uint32_t)((a + k) % GSM_MAX_FN); ncalls = 0;
+				mframe_schedule();
+				total += ncalls;
+			}
+			printf(" %u %u %u %lld", (unsigned)l1s.mframe_sched.tasks, (unsigned)l1s.mframe_sched.tasks_tgt, (unsigned)l1s.mframe_sched.safe_fn, total);
+			break;
+		case 7: l1s.mframe_sched.tasks = (uint32_t)a; l1s.mframe_sched.tasks_tgt = (uint32_t)b; break;
+		case 8: l1s.mframe_sched.safe_fn = (uint32_t)a; break;
+		}
+	}
+	printf("\n");
+	return;
+bad:
+	printf("-999\n");
+}
+
+int main(int argc, char **argv)
 {
 	unsigned long mask, fn; int i;
 	static char buf[1 << 16];
 	setvbuf(stdout, buf, _IOFBF, sizeof(buf));
+	if (argc > 1 && !strcmp(argv[1], "hist")) {
+		char *line = NULL; size_t cap = 0;
+		while (getline(&line, &cap, stdin) > 0)
+			run_hist(line);
+		return 0;
+	}
 	while (scanf("%lu %lu", &mask, &fn) == 2) {
 		memset(&l1s, 0, sizeof(l1s));
 		mframe_reset();
